@@ -10,6 +10,7 @@ ID = 'C07'
 LEVEL = 'proof'
 CLUSTER = 'E'
 GEN_UNITS = ['zone_line', 'read_zone_line', 'rotate']
+EXTRA_TARGETS = ['PdbVerif.Proofs.RmsdRoutes']      # route-agreement lemmas re-exported by Props/C09.lean
 MODELS = ['Model.Rmsd.irmsdFast', 'Model.Rmsd.irmsdSql', 'Model.Rmsd.lrmsdFast', 'Model.Rmsd.lrmsdSql']
 RULE = ('synthetic two-chain complexes from complexgen (3-15 residues per chain, backbone + 0-4 side-chain atoms, optional hydrogens, '
         'plain / negative / gappy / offset numbering, chain gaps 3.5-11 A so that the interface is empty, partial or everything); decoys by '
